@@ -21,11 +21,15 @@ from redun.task import CacheResult  # noqa: E402
 PROPERTY = "C04"
 FUNCTIONS = ["redun.scheduler.Scheduler._get_cache", "Scheduler._is_valid_value", "redun.value.TypeRegistry.is_valid_nested",
              "redun.file.File/ContentFile/IFile/Dir/FileSet.is_valid", "redun.expression.TaskExpression.is_valid",
-             "redun.scheduler.Scheduler._exec_job_main_thread (re-execution)", "redun.backends.db.RedunBackendDb.check_cache"]
+             "redun.scheduler.Scheduler._exec_job_main_thread (re-execution)", "redun.backends.db.RedunBackendDb.check_cache",
+             "redun.scheduler.Scheduler._perform_rollbacks", "redun.handle.Handle.is_valid", "RedunBackendDb.rollback_handle"]
 ASSUMPTIONS = FS.ASSUMPTIONS[:1] + [
     "cached result = one external value of a solver-chosen class in a solver-chosen position (bare, in a list, in a dict, nested, "
     "positional or keyword argument of a returned task expression), after one solver-chosen file-system change",
-    "Handle validity is C25's subject (same _get_cache path); remote file systems are outside",
+    "Handles: a task that receives a Handle (directly, by keyword, in a list, in a dict, nested) is run under a solver-chosen "
+    "sequence of code versions; it must execute exactly when the previous execution on that incoming handle was by another "
+    "version (whose execution rolled back this version's recorded state); arbitrary lineage histories are C25's subject; "
+    "remote file systems are outside",
     "re-execution: a task that writes a file and returns a value of the chosen class, run twice with a file-system change in between",
 ]
 
@@ -251,7 +255,101 @@ def c04_rerun(k: int) -> bool:
     return guard(body, k=k)
 
 
+# ---------------------------------------------------------------------------------------------
+# Handles: a task that advances a Handle is edited and reverted; the recorded result of a version is replayed only while the
+# handle state it returned has not been rolled back by an execution of another version on the same incoming handle.
+from redun import Handle  # noqa: E402
+
+HPLACES = ["direct", "kwarg", "in_list", "in_dict", "nested"]
+_HCALLS = []
+_HT = {}
+
+
+class C04Conn(Handle):
+    def __init__(self, name, uri="db://x"):
+        self.uri = uri
+
+
+def _find_handle(x):
+    if isinstance(x, Handle):
+        return x
+    if isinstance(x, dict):
+        x = list(x.values())
+    if isinstance(x, (list, tuple)):
+        for y in x:
+            h = _find_handle(y)
+            if h is not None:
+                return h
+    return None
+
+
+def _define_update(version):
+    def update(*args, **kwargs):
+        _HCALLS.append(version)
+        return _find_handle([list(args), kwargs])
+    return task(name="update", namespace=NS, version=version)(update)
+
+
+def _hmain(place, name):
+    conn = C04Conn(name)
+    upd = _HT["update"]
+    if place == "direct":
+        return upd(conn)
+    if place == "kwarg":
+        return upd(conn=conn)
+    if place == "in_list":
+        return upd([1, conn])
+    if place == "in_dict":
+        return upd({"main": conn})
+    return upd({"a": [(conn,)]})
+
+
+hmain = task(name="hmain", namespace=NS, version="1", cache=False)(_hmain)
+
+
+def handle_case(place, versions):
+    """versions: e.g. ['v1', 'v2', 'v1'] - the code version of the handle-advancing task in successive executions."""
+    _SALT[0] += 1
+    name = "conn_%d_%d" % (os.getpid(), _SALT[0])
+    s = _sched()
+    last = None
+    trace = []
+    for v in versions:
+        _HT["update"] = _define_update(v)
+        trace.append(v)
+        del _HCALLS[:]
+        try:
+            out = s.run(hmain(place, name))
+        except Exception as e:
+            return False, "handle passed %s, versions %r: raised %s: %s" % (place, trace, type(e).__name__, e)
+        want = [] if v == last else [v]
+        if _HCALLS != want:
+            return False, ("handle passed %s, task versions run in turn %r: the last run %s, but the handle state recorded for %s is %s "
+                           "(the previous execution on that incoming handle was by version %s)") % (
+                place, trace, "executed the task" if _HCALLS else "replayed the recorded result", v,
+                "still valid" if v == last else "rolled back", last)
+        if not s.backend.is_valid_handle(out):
+            return False, "handle passed %s, versions %r: the returned handle state is not valid" % (place, trace)
+        last = v
+    return True, "ok"
+
+
+def c04_handle(k: int) -> bool:
+    """
+    post: _
+    """
+    def body():
+        n = SL()
+        place = HPLACES[choose(len(HPLACES), "place")]
+        versions = ["v1"] + [["v1", "v2"][choose(2, "version")] for _ in range(n - 1)]
+        return native(lambda: handle_case(place, versions)[0])
+    return guard(body, k=k)
+
+
 CONDITIONS = [
+    Condition(c04_handle, slices=[3], thorough_slices=[3, 4, 5], timeout=250, thorough_timeout=900,
+              bounds="slice = number of successive executions; the position in which the Handle reaches the task (%r) and the code "
+                     "version (v1/v2) of the task in every execution after the first are solver-chosen" % (HPLACES,)),
     Condition(c04_get_cache, slices=list(range(len(CLASSES))), timeout=200,
               bounds="slice = class of the external value in %r; file-system change in %r; position in the cached result in %r" % (
                   CLASSES, CHANGES, SHAPES)),
@@ -263,6 +361,9 @@ CONDITIONS = [
 
 def replay(cond, args, extra):
     ch = [c[1] for c in extra["choices"]]
+    if cond == "c04_handle":
+        ok, detail = handle_case(HPLACES[ch[0]], ["v1"] + [["v1", "v2"][c] for c in ch[1:]])
+        return (not ok), detail, None
     cls = CLASSES[extra["slice"]]
     if cond == "c04_get_cache":
         ok, detail = cache_case(cls, CHANGES[ch[0]], SHAPES[ch[1]])
